@@ -151,6 +151,27 @@ theorem nothing_before_auth (toks : List Str) (msgs : List ClientMsg) (k : Nat) 
   obtain ⟨h1, h2, pre, ok, h3, h4, h5⟩ := serverHandle_forward_authed toks msgs 0 k first rest h
   exact ⟨h1, h2, pre, ok, h3, by omega, h5⟩
 
+/-- The test that switches authentication off is `usernameByToken == nil` (not a test of the map's length): a server
+    configured with Basic authentication and an EMPTY user list keeps the gate closed (`auth = some []` in the model). -/
+theorem gen_auth_gate : authDisabledTest = "usernameByToken == nil" := by decide
+
+/-- Authentication enabled with no user at all: whatever the client sends (no, malformed or well-formed credentials),
+    `ServerHandle` never hands a request over for forwarding and never grants a tunnel. -/
+theorem nothing_before_auth_no_users (msgs : List ClientMsg) (n : Nat) :
+    (∀ k first rest, serverHandle (some []) msgs n ≠ .forward k first rest) ∧
+    (∀ k r, serverHandle (some []) msgs n ≠ .connect k r) := by
+  induction msgs generalizing n with
+  | nil => simp [serverHandle]
+  | cons m ms ih =>
+    cases m with
+    | garbage => simp [serverHandle]
+    | req r ok =>
+      simp only [serverHandle, authOk, basicAuth_nil, Bool.not_false, if_true]
+      by_cases hc : r.close = true
+      · simp [hc]
+      · simp only [hc, Bool.false_eq_true, if_false]
+        exact ih (n + 1)
+
 /-! ### host_pinned -/
 
 /-- In every reachable state of the forwarding system (any interleaving of the two goroutines, any behaviour of
@@ -246,6 +267,9 @@ example : (filterReq exReq).header = [("Accept".toList, "*/*".toList)] := by dec
 example : (filterReq exReq).trailer = [("X-Sum".toList, "9".toList)] := by decide
 example : serverHandle (some ["aGVsbG86d29ybGQ=".toList])
     [.req { exReq with header := [] } true, .req exReq true] 0 = .forward 1 exReq [] := by decide
+-- the empty token map: well-formed credentials of a user that does not exist are answered with 407
+example : serverHandle (some []) [.req exReq true, .req { exReq with method := connectLit } true] 0 = .readErr 2 := by decide
+example : serverHandle none [.req exReq true] 0 = .forward 0 exReq [] := by decide
 example : ∃ s, Reachable exReq [] s ∧ s.originIn = [filterReq exReq] :=
   ⟨_, .step (.step .init (.fAnnounce _ [] (filterReq exReq) rfl rfl (by decide))) (.fWrite _ [] (filterReq exReq) rfl rfl), rfl⟩
 example : ∃ s, Reachable exReq [] s ∧ s.clientOut.length = 1 :=
@@ -265,6 +289,8 @@ end SSV.C16
 #print axioms SSV.C16.forbidden_trailer_never_forwarded
 #print axioms SSV.C16.end_to_end_kept
 #print axioms SSV.C16.nothing_before_auth
+#print axioms SSV.C16.gen_auth_gate
+#print axioms SSV.C16.nothing_before_auth_no_users
 #print axioms SSV.C16.host_pinned
 #print axioms SSV.C16.violating_request_refused
 #print axioms SSV.C16.violating_request_ends
